@@ -293,13 +293,14 @@ static void live_case(uint64_t index)
     if (!n) CPU_SET(hwloc_bitmap_last(orig), &helper_mask);
     helper_stop = 0; helper_bound = 0;
     if (pthread_create(&helper, NULL, helper_main, NULL) == 0) { have_helper = 1; while (!helper_bound) usleep(100); hv_stat("live.loads_with_second_thread", 1);
-      if (hv_chance(&R, 1, 2)) { flags |= HWLOC_TOPOLOGY_FLAG_RESTRICT_TO_CPUBINDING; hv_stat("live.loads_restrict_to_cpubinding", 1); } }
+      if (hv_chance(&R, 1, 2)) { flags |= HWLOC_TOPOLOGY_FLAG_RESTRICT_TO_CPUBINDING | HWLOC_TOPOLOGY_FLAG_IS_THISSYSTEM; /* the flag is only legal together with IS_THISSYSTEM */ } }
   }
   real_getaff(before);
   if (comps[ci]) setenv("HWLOC_COMPONENTS", comps[ci], 1); else unsetenv("HWLOC_COMPONENTS");
   hwloc_topology_t t; hwloc_topology_init(&t);
   if (hwloc_topology_set_flags(t, flags) != 0) { hv_stat("live.flag_combination_refused", 1); flags &= ~(unsigned long)HWLOC_TOPOLOGY_FLAG_RESTRICT_TO_CPUBINDING; hwloc_topology_set_flags(t, flags); }
   flags = hwloc_topology_get_flags(t);      /* what the load will really use */
+  if (flags & HWLOC_TOPOLOGY_FLAG_RESTRICT_TO_CPUBINDING) hv_stat("live.loads_restrict_to_cpubinding", 1);
   if (hv_chance(&R, 1, 2)) hwloc_topology_set_io_types_filter(t, HWLOC_TYPE_FILTER_KEEP_ALL);
   char bs[200]; bm_str(before, bs, sizeof bs);
   hv_desc("live: components=%s flags=%#lx pre-bound to {%s}\n", comps[ci] ? comps[ci] : "(default)", flags, bs);
